@@ -73,7 +73,7 @@ POOLS = [
 
 
 def budget(tier):
-    return 1200 if tier == "quick" else 24000
+    return 3000 if tier == "quick" else 40000
 
 
 def _gen_ballots(rng, kind, n, nv):
@@ -108,7 +108,7 @@ def gen(rng, i, tier):
     pool = rng.choice(POOLS)
     costs = [pb.F(rng.choice(pool)) for _ in range(n)]
     tot = sum(costs, Fraction(0))
-    mode = rng.randrange(8)
+    mode = rng.choice([0, 1, 2, 3, 3, 3, 4, 4, 4, 5, 6, 6, 6, 7, 7])
     if mode == 0:
         b = tot
     elif mode == 1:
@@ -135,7 +135,7 @@ def gen(rng, i, tier):
     solver = sat in SOLVER_SATS
     tbs = ["lexico", "min_cost", "max_cost"] + (["app_score"] if kind == "approval" else [])
     tb = rng.choice(tbs)
-    additive = rng.choice([None, None, True, False])
+    additive = rng.choice([None, True, True, False] if sat in NON_ADDITIVE else [None, None, True, False])
     # initial allocation: a feasible subset
     init = []
     if rng.random() < 0.4:
@@ -176,6 +176,11 @@ def impl(case):
     from pabutools.rules import greedy_utilitarian_welfare
 
     if case.get("solver"):
+        # CBC occasionally dead-locks inside the C library: a watchdog thread kills the worker (the case is then
+        # discarded as a solver fault and the remaining cases are resumed)
+        import faulthandler
+
+        faulthandler.dump_traceback_later(30, exit=True)
         pb.install_solver_guard()
         pb.solver_reset()
     n = len(case["costs"])
@@ -208,6 +213,9 @@ def impl(case):
     else:
         out["out"] = [pb.ranks(r) for r in res]
     if case.get("solver"):
+        import faulthandler
+
+        faulthandler.cancel_dump_traceback_later()
         st = pb.solver_state()
         if st["faults"]:
             out["solver_fault"] = st["last_fault"]
